@@ -2582,6 +2582,9 @@ func decodeOpenflowportCounters(data *[]byte) (SFlowOpenflowPortCounters, error)
 	ofp := SFlowOpenflowPortCounters{}
 	var cdf SFlowCounterDataFormat
 
+	if len(*data) < 20 {
+		return ofp, errors.New("openflow port counters too small")
+	}
 	*data, cdf = (*data)[4:], SFlowCounterDataFormat(binary.BigEndian.Uint32((*data)[:4]))
 	ofp.EnterpriseID, ofp.Format = cdf.decode()
 	*data, ofp.FlowDataLength = (*data)[4:], binary.BigEndian.Uint32((*data)[:4])
